@@ -942,51 +942,19 @@ def _wrapped_by_copy(t, R):
     return out or [True]
 
 
-def memoisation(ctx):
+STATELESS_CLASSES = ('CSVDailyBarDataSource', 'BacktestDataHandler', 'SingleSignalAlphaModel', 'FixedSignalsAlphaModel', 'StaticUniverse', 'DynamicUniverse',
+                  'FixedWeightPortfolioOptimiser', 'EqualWeightPortfolioOptimiser', 'PercentFeeModel', 'ZeroFeeModel', 'SimulatedExchange',
+                  'DollarWeightedCashBufferedOrderSizer', 'LongShortLeveragedOrderSizer', 'PortfolioConstructionModel', 'ExecutionHandler', 'QuantTradingSystem')
+
+
+def state_scan(ctx, cnames):
+    """hand-rolled state in the given classes (see the comment below); also used by the checks of the properties those classes carry"""
     M = ctx.M
-    cached = [f for f in M.all_funcs() if f.is_cached]
-    ctx.floor('C18.memo', 'memoised functions', len(cached), 0)
-    for f in cached:
-        if f.qn not in TABLED_CACHED:
-            new_memo(ctx, f)
-            continue
-        ctx.holds('C18.memo', 'memoised function %s is tabled and discharged' % f.qn, f.site())
-        ps = summarise(ctx, f, policy=default_policy)
-        from ..lib import memo_tables, all_terms_of
-        mts = memo_tables(ctx, f, ps)
-        sound = {k for k, v in mts.items() if v[0] == 'sound'}
-        cursors = {k for k, v in mts.items() if v[0] == 'other' and 'cursor' in v[1]}
-        field_of = lambda loc: (loc[1][2] if loc[0] == 'sub' and loc[1][0] == 'attr' and loc[1][1] == V('self') else None)
-        for p in ps:
-            ws = [w for w in heap_writes(p) if field_of(w.loc) not in sound]
-            if ws and all(any(s_[0] == 'attr' and s_[1] == V('self') and s_[2] in cursors for s_ in T.subterms(w.loc)) for w in ws):
-                ctx.undecided('C18.memo', '%s has no side effect' % f.qn, ws[0].site, 'advances the per-key cursors in self.%s' % sorted(cursors))
-            else:
-                ctx.require(not ws, 'C18.memo', '%s has no side effect' % f.qn, ws[0].site if ws else None, key='C18.memo|pure|%s' % f.qn)
-            reads = set()
-            for t in all_terms_of(p):
-                for s in T.subterms(t):
-                    if s[0] == 'attr' and s[1] == V('self'):
-                        reads.add(s[2])
-            # state fixed at construction may be read freely; a sound memo table answers what a fresh computation would; cursors are left open above
-            mutable = sorted(r for r in reads - sound - cursors if M.field_written_outside_init(f.cls, r))
-            ctx.require(not mutable, 'C18.memo', '%s reads only its arguments and state fixed at construction' % f.qn, f.site(), mutable,
-                        key='C18.memo|reads|%s' % f.qn)
-        c = f.cls
-        if c is not None:
-            ctx.require('__eq__' not in c.methods and '__hash__' not in c.methods, 'C18.memo', '%s is keyed by instance identity (the class defines no __eq__/__hash__)' % f.qn,
-                        (c.methods.get('__eq__') or c.methods.get('__hash__')).site() if ('__eq__' in c.methods or '__hash__' in c.methods) else None,
-                        'value-based equality lets two data sources with different contents share cache entries', key='C18.memo|identity|%s' % f.qn)
-    ws = writers_of_attr(M, 'asset_bid_ask_frames')
-    ctx.require(len(ws) == 1 and ws[0].fn.qn == 'CSVDailyBarDataSource.__init__', 'C18.memo', 'the memoised lookups depend on frames written once, in the constructor',
-                ws[0].where if ws else None, [w.fn.qn for w in ws], key='C18.memo|frames')
     # hand-rolled state: a field written outside __init__ in a class on the pricing/alpha path.  Harmless when nothing ever reads it back (a record), or
     # when it is a memo table whose key carries every argument the stored value depends on; otherwise later answers depend on earlier queries.
     from ..lib import memo_tables
     from ..symex import Undecided
-    for cname in ('CSVDailyBarDataSource', 'BacktestDataHandler', 'SingleSignalAlphaModel', 'FixedSignalsAlphaModel', 'StaticUniverse', 'DynamicUniverse',
-                  'FixedWeightPortfolioOptimiser', 'EqualWeightPortfolioOptimiser', 'PercentFeeModel', 'ZeroFeeModel', 'SimulatedExchange',
-                  'DollarWeightedCashBufferedOrderSizer', 'LongShortLeveragedOrderSizer', 'PortfolioConstructionModel', 'ExecutionHandler', 'QuantTradingSystem'):
+    for cname in cnames:
         c = M.cls(cname)
         if c is None:
             continue
@@ -1120,6 +1088,47 @@ def memoisation(ctx):
                 ctx.violation('C18.memo', 'stateless components keep no state between calls (%s)' % m.qn, m.site(n),
                               'self.%s is %s outside the constructor and read back: results depend on the history of earlier queries' % (fld, how),
                               key='C18.memo|state|%s|%s' % (m.qn, fld))
+
+
+def memoisation(ctx):
+    M = ctx.M
+    cached = [f for f in M.all_funcs() if f.is_cached]
+    ctx.floor('C18.memo', 'memoised functions', len(cached), 0)
+    for f in cached:
+        if f.qn not in TABLED_CACHED:
+            new_memo(ctx, f)
+            continue
+        ctx.holds('C18.memo', 'memoised function %s is tabled and discharged' % f.qn, f.site())
+        ps = summarise(ctx, f, policy=default_policy)
+        from ..lib import memo_tables, all_terms_of
+        mts = memo_tables(ctx, f, ps)
+        sound = {k for k, v in mts.items() if v[0] == 'sound'}
+        cursors = {k for k, v in mts.items() if v[0] == 'other' and 'cursor' in v[1]}
+        field_of = lambda loc: (loc[1][2] if loc[0] == 'sub' and loc[1][0] == 'attr' and loc[1][1] == V('self') else None)
+        for p in ps:
+            ws = [w for w in heap_writes(p) if field_of(w.loc) not in sound]
+            if ws and all(any(s_[0] == 'attr' and s_[1] == V('self') and s_[2] in cursors for s_ in T.subterms(w.loc)) for w in ws):
+                ctx.undecided('C18.memo', '%s has no side effect' % f.qn, ws[0].site, 'advances the per-key cursors in self.%s' % sorted(cursors))
+            else:
+                ctx.require(not ws, 'C18.memo', '%s has no side effect' % f.qn, ws[0].site if ws else None, key='C18.memo|pure|%s' % f.qn)
+            reads = set()
+            for t in all_terms_of(p):
+                for s in T.subterms(t):
+                    if s[0] == 'attr' and s[1] == V('self'):
+                        reads.add(s[2])
+            # state fixed at construction may be read freely; a sound memo table answers what a fresh computation would; cursors are left open above
+            mutable = sorted(r for r in reads - sound - cursors if M.field_written_outside_init(f.cls, r))
+            ctx.require(not mutable, 'C18.memo', '%s reads only its arguments and state fixed at construction' % f.qn, f.site(), mutable,
+                        key='C18.memo|reads|%s' % f.qn)
+        c = f.cls
+        if c is not None:
+            ctx.require('__eq__' not in c.methods and '__hash__' not in c.methods, 'C18.memo', '%s is keyed by instance identity (the class defines no __eq__/__hash__)' % f.qn,
+                        (c.methods.get('__eq__') or c.methods.get('__hash__')).site() if ('__eq__' in c.methods or '__hash__' in c.methods) else None,
+                        'value-based equality lets two data sources with different contents share cache entries', key='C18.memo|identity|%s' % f.qn)
+    ws = writers_of_attr(M, 'asset_bid_ask_frames')
+    ctx.require(len(ws) == 1 and ws[0].fn.qn == 'CSVDailyBarDataSource.__init__', 'C18.memo', 'the memoised lookups depend on frames written once, in the constructor',
+                ws[0].where if ws else None, [w.fn.qn for w in ws], key='C18.memo|frames')
+    state_scan(ctx, STATELESS_CLASSES)
     ctx.holds('C18.memo', 'statelessness scan of pricing/alpha/sizing components', None)
 
 
